@@ -27,6 +27,7 @@ def run(ctx):
     rule_names(ctx, repo)
     rule_dispatch(ctx, repo, it)
     rule_arity(ctx, repo, it)
+    rule_top_indexing(ctx, repo)
     rule_bool_pushes(ctx, repo, it)
     rule_cast_to_bool(ctx, repo)
     rule_limits(ctx, repo, it)
@@ -299,6 +300,23 @@ def helper_summary(it, fname, opcodes):
             probs.extend(st['stack']['problems'])
         out[v] = (req, deltas, probs, paths)
     return fi, out
+
+
+def rule_top_indexing(ctx, repo):
+    """Operands are named from the top of the stack: stack[-1] is the top.  A literal index that is not negative
+    (`stack[0]`, `stack[-0]`) names the BOTTOM element - the operand of another, earlier operation."""
+    r = ctx.rule('C06.I1', 'stack operands are addressed from the top (negative literal indices only)', engine='CONST', floor=20)
+    m = repo.get_module('bitcoin.core.scripteval')
+    n_ = 0
+    for fi in [f for f in repo.functions.values() if f.module is m]:
+        for x in walk_no_nested(fi.node):
+            if isinstance(x, ast.Subscript) and isinstance(x.value, ast.Name) and x.value.id in ('stack', 'altstack') and not isinstance(x.slice, ast.Slice):
+                v = repo.fold(x.slice, fi.module)
+                if isinstance(v, int) and not isinstance(v, bool):
+                    n_ += 1
+                    key = 'index:%s:%s#%d' % (fi.name, norm(x), n_)
+                    r.check(v < 0, key, common.site_of(fi, x), 'from the top', '`%s` in %s addresses the bottom of the stack (index %d), not an operand of the operation being executed: '
+                            'the top element is stack[-1]' % (norm(x), fi.name, v), sure=True)
 
 
 def rule_arity(ctx, repo, it):
@@ -697,6 +715,26 @@ def rule_hashes(ctx, repo, it):
     pad = defs.get('pad')
     fin = defs.get('fin')
     from ..rules import canon_arith
+    # every 64-byte block is taken exactly: the calls of compress() run over <buf>[64*b : 64*(b+1)] for b in range(len(<buf>) >> 6)
+    for lp_ in [n for n in walk_no_nested(rf.node) if isinstance(n, ast.For) and isinstance(n.target, ast.Name)]:
+        calls_ = [c_ for c_ in ast.walk(lp_) if isinstance(c_, ast.Call) and norm(c_.func) == 'compress' and c_.args]
+        for c_ in calls_:
+            blk_ = c_.args[-1]
+            b_ = lp_.target.id
+            keyb = 'ripemd160:blocks:%s' % (norm(blk_.value) if isinstance(blk_, ast.Subscript) else '?')
+            if isinstance(blk_, ast.Subscript) and isinstance(blk_.slice, ast.Slice) and blk_.slice.lower is not None and blk_.slice.upper is not None:
+                lo_, up_ = canon_arith(blk_.slice.lower), canon_arith(blk_.slice.upper)
+                buf_ = norm(blk_.value)
+                good_lo = {canon_arith('64 * %s' % b_), canon_arith('%s << 6' % b_)}
+                good_up = {canon_arith('64 * (%s + 1)' % b_), canon_arith('64 * %s + 64' % b_), canon_arith('(%s + 1) << 6' % b_)}
+                rng_ok = canon_arith(lp_.iter) in {canon_arith('range(len(%s) >> 6)' % buf_), canon_arith('range(len(%s) // 64)' % buf_)}
+                if lo_ in good_lo and up_ in good_up and rng_ok:
+                    r.ok(keyb, common.site_of(rf, c_), 'blocks %s[64*b:64*(b+1)]' % buf_)
+                elif rng_ok and re.match(r'^[\d\s*+()<b]+$', norm(blk_.slice.lower).replace(b_, 'b')) and re.match(r'^[\d\s*+()<b]+$', norm(blk_.slice.upper).replace(b_, 'b')):
+                    r.violated(keyb, common.site_of(rf, c_), 'RIPEMD-160 compresses `%s`: the 64-byte blocks are %s[64*b:64*(b+1)] (a block that starts early, ends early or overlaps its neighbour changes every digest '
+                               'of an input that reaches it)' % (norm(blk_), buf_), sure=True)
+                else:
+                    r.undecided(keyb, common.site_of(rf, c_), 'block slicing `%s` over `%s` not recognised' % (norm(blk_), norm(lp_.iter)))
     pad_ok = pad is not None and canon_arith(pad) == canon_arith("b'\\x80' + b'\\x00' * ((119 - len(%s)) & 63)" % data)
     fin_ok = fin is not None and canon_arith(fin) == canon_arith("%s[len(%s) & ~63:] + pad + (8 * len(%s)).to_bytes(8, 'little')" % (data, data, data))
     if pad_ok and fin_ok:
